@@ -3,6 +3,7 @@ package main
 import (
 	"bytes"
 	"fmt"
+	"io"
 	"os"
 
 	"github.com/muktihari/fit/decoder"
@@ -64,7 +65,7 @@ func c04(args []string) {
 			_ = why
 			continue
 		}
-		region := len(b) - 14 // message bytes + trailing CRC
+		region := len(b) - 14                 // message bytes + trailing CRC
 		for bit := 0; bit < region*8; bit++ { // every single bit
 			m := append([]byte(nil), b...)
 			m[14+bit/8] ^= 1 << uint(bit%8)
@@ -126,45 +127,94 @@ func c04(args []string) {
 			pool = append(pool, b)
 		}
 	}
-	for i := 0; i < nref; i++ {
-		var b []byte
-		switch r.intn(8) {
-		case 0:
-			b = r.bytes(r.intn(40))
-		case 1:
-			b = pool[r.intn(len(pool))]
-		case 2:
-			b = r.mutate(pool[r.intn(len(pool))])
-		case 3: // header CRC zeroed / wrong, 12-byte headers, zero data size
-			ec := r.encCfg()
-			ec.protoVer = proto.V2
-			out, err := encodeFit(ec, r.genFit(mesgGenCfg{wellFormed: true, maxFields: 4}, 1+r.intn(3), false))
-			if err != nil {
-				continue
-			}
-			b = out
-			if len(b) > 14 && b[0] == 14 {
-				switch r.intn(4) {
-				case 0:
-					b[12], b[13] = 0, 0
-				case 1:
-					b[12] ^= 1
-				case 2:
-					b[4], b[5], b[6], b[7] = 0, 0, 0, 0
+	// header size byte against the header actually present: every declared size 0..20 and 255 on 12- and 14-byte originals
+	var sweep [][]byte
+	for _, hs := range []byte{12, 14} {
+		ec := r.encCfg()
+		ec.protoVer, ec.headerSize = proto.V2, hs
+		out, err := encodeFit(ec, r.genFit(mesgGenCfg{wellFormed: true, maxFields: 4}, 1+r.intn(3), false))
+		if err != nil || len(out) < int(hs)+4 {
+			continue
+		}
+		for _, s := range []int{0, 1, 2, 8, 11, 12, 13, 14, 15, 16, 17, 20, 255} {
+			for _, keepCRC := range []bool{false, true} {
+				h := append([]byte(nil), out[:12]...)
+				h[0] = byte(s)
+				switch {
+				case s > 12:
+					if keepCRC && hs == 14 {
+						h = append(h, out[12:14]...)
+					}
+					for len(h) < s && len(h) < 40 {
+						h = append(h, byte(len(h)))
+					}
+					h = h[:minInt(len(h), maxInt(s, 12))]
+				case s < 12 && !keepCRC:
+					h = h[:maxInt(s, 1)]
 				}
+				sweep = append(sweep, append(h, out[hs:]...))
 			}
-		default:
-			ec, files := r.genChain(true)
-			out, _, err := encodeChain(ec, files)
-			if err != nil || len(out) == 0 {
-				continue
-			}
-			b = out
-			if r.chance(1, 3) {
-				b = r.mutate(b)
+		}
+	}
+	stat("header_size_sweep", len(sweep))
+	for i := -len(sweep); i < nref; i++ {
+		var b []byte
+		if i < 0 {
+			b = sweep[i+len(sweep)]
+		} else {
+			switch r.intn(8) {
+			case 0:
+				b = r.bytes(r.intn(40))
+			case 1:
+				b = pool[r.intn(len(pool))]
+			case 2:
+				b = r.mutate(pool[r.intn(len(pool))])
+			case 3: // header CRC zeroed / wrong, 12-byte headers, zero data size
+				ec := r.encCfg()
+				ec.protoVer = proto.V2
+				out, err := encodeFit(ec, r.genFit(mesgGenCfg{wellFormed: true, maxFields: 4}, 1+r.intn(3), false))
+				if err != nil {
+					continue
+				}
+				b = out
+				if len(b) > 14 && b[0] == 14 {
+					switch r.intn(4) {
+					case 0:
+						b[12], b[13] = 0, 0
+					case 1:
+						b[12] ^= 1
+					case 2:
+						b[4], b[5], b[6], b[7] = 0, 0, 0, 0
+					}
+				}
+			default:
+				ec, files := r.genChain(true)
+				out, _, err := encodeChain(ec, files)
+				if err != nil || len(out) == 0 {
+					continue
+				}
+				b = out
+				if r.chance(1, 3) {
+					b = r.mutate(b)
+				}
 			}
 		}
 		n, err, p := checkIntegrity(b)
+		// the verdict does not depend on how the reader hands the bytes over (all at once together with io.EOF / one byte at a time)
+		for _, rd := range []io.Reader{&chunkReader{data: append([]byte(nil), b...), plan: []int{len(b)}, eofWithData: true, failAt: -1}, oneByteReader{bytes.NewReader(b)}} {
+			n2, err2 := func() (n int, err error) {
+				defer func() {
+					if p := recover(); p != nil {
+						err = fmt.Errorf("panic: %v", p)
+					}
+				}()
+				return decoder.New(rd).CheckIntegrity()
+			}()
+			stat("oracle_integrity_other_readers", 1)
+			if p == nil && (n2 != n || (err2 == nil) != (err == nil)) {
+				emitJSON("FAIL", "", map[string]any{"kind": "integrity-depends-on-reader", "bytes": fmt.Sprintf("%x", b), "contiguous": fmt.Sprint(n, err), "other_reader": fmt.Sprint(n2, err2), "reader": fmt.Sprintf("%T", rd)})
+			}
+		}
 		if p != nil {
 			emitJSON("FAIL", "", map[string]any{"kind": "integrity-panic", "bytes": fmt.Sprintf("%x", b), "panic": fmt.Sprint(p)})
 			continue
